@@ -52,6 +52,10 @@ def showMatch : MatchRes → String
   | .none => "none"
   | .panic => "panic"
 
+/-- Drop what legitimately depends on the segmentation (per-write results). -/
+def projectForChunking (obs : String) : String :=
+  " ".intercalate ((obs.splitOn " ").filter fun f => !f.startsWith "bw=")
+
 def dispatch : List String → String
   | ["status_from_rpc", n] => match n.toNat? with
       | some k => optNat (httpStatusFromRPC k)
@@ -87,6 +91,7 @@ def dispatch : List String → String
     | _, _, _ => "bad-arg"
   | ["e2e", h] => runE2E h
   | ["e2e_fresh", h] => runE2E h
+  | ["e2e_pair", a, b] => projectForChunking (runE2E a) ++ " ## " ++ projectForChunking (runE2E b)
   | _ => "bad-op"
 
 end Vanguard.Driver
